@@ -201,6 +201,20 @@ impl Scenario for HeightLimit {
                     }
                 }
             }
+            // optionally a second reconfiguration, back to the limit the state was created with
+            let m = if m != n && choose(2) == 1 {
+                op_log(format!("set_max_height_allowed({n}) again (the limit the state was created with)"));
+                cover("limit-changed-and-changed-back");
+                if let Err(msg) = catch(|| st.set_max_height_allowed(n)) {
+                    violation("C19/legal-reconfiguration-rejected", format!("set_max_height_allowed({n}) with greatest height {want} in use (was {m}): {msg}"));
+                    keep.things.push(Box::new(o));
+                    keep.things.push(Box::new(v));
+                    return;
+                }
+                n
+            } else {
+                m
+            };
             // now a second graph of height m (accepted) or m + 1 (rejected)
             let over = choose(2);
             let want2 = m + over;
